@@ -45,6 +45,31 @@ class Recorder(BaseWriter):
         return out
 
 
+class FaultyWriter(BaseWriter):
+    """A second output that fails when armed: its write() raises DeviceError once (the line has already reached every writer
+    registered before it)."""
+
+    def __init__(self):
+        self.armed = False
+        self.failed = 0
+
+    def connect(self):
+        return self
+
+    def disconnect(self, wait=True):
+        pass
+
+    def flush(self):
+        pass
+
+    def write(self, statement):
+        if self.armed:
+            self.armed = False
+            self.failed += 1
+            from gscrib.excepts import DeviceError
+            raise DeviceError("link to the second output lost")
+
+
 def mkpoint(v):
     """JSON op arguments use lists; ['P', x, y, z] means a Point object."""
     if isinstance(v, list) and v and v[0] == "P":
